@@ -33,6 +33,22 @@ def _merge(a, b, sign=1):
     return r
 
 
+def _small(t, limit=80):
+    """True if the term DAG has fewer than `limit` nodes (bounded traversal)"""
+    seen = set()
+    stack = [t]
+    while stack:
+        e = stack.pop()
+        i = e.get_id()
+        if i in seen:
+            continue
+        seen.add(i)
+        if len(seen) > limit:
+            return False
+        stack.extend(e.children())
+    return True
+
+
 def _prod_term(fs):
     """z3 term of a factor multiset (positive powers only); None if empty"""
     acc = None
@@ -201,6 +217,13 @@ class Val:
         ta = Q(a.c) if ta is None else (ta if a.c == 1 else Q(a.c) * ta)
         tb = Q(b.c) if tb is None else (tb if b.c == 1 else Q(b.c) * tb)
         s = ta + tb
+        if _small(s):
+            # cheap normalisation of small sums: (1 + n) + (1 - n) -> 2 etc.
+            s2 = z3.simplify(s, som=True)
+            if z3.is_rational_value(s2):
+                c = Fraction(s2.numerator_as_long(), s2.denominator_as_long())
+                return (Val(c, G) * Val(1, None, L)) if c != 0 else Val(0)
+            s = s2
         nf = dict(G)
         nf[s.get_id()] = (s, 1)
         return Val(1, nf) * Val(1, None, L)
